@@ -4,8 +4,10 @@ import Litep2pVerif.Model.Notif.Channel
 namespace Litep2pVerif.Driver.C12
 open Litep2pVerif Litep2pVerif.Chan Parse
 
+/-- The driver follows every resolution of the `select!` choices that is consistent with the observations so
+far (`cands`); in checker mode each op line carries the implementation's observation (`op -> obs`). -/
 structure State where
-  chan : Option Chan := none
+  cands : List Chan := []
   everOpened : Bool := false
 
 def init : State := {}
@@ -13,20 +15,41 @@ def init : State := {}
 def resWord : SendRes → String
   | .ok => "ok" | .clogged => "clogged" | .noconn => "noconn" | .nopeer => "nopeer" | .waiting => "waiting"
 
-/-- `run`: poll the task, then let waiting async sends proceed, until nothing moves. -/
-def runLoop (c : Chan) (sent : List String) (ended : Option Bool) : Nat → Chan × List String × Option Bool
-  | 0 => (c, sent, ended)
+def dedup {α} [BEq α] (l : List α) : List α :=
+  l.foldl (fun acc c => if acc.contains c then acc else acc ++ [c]) []
+
+def allPicks : Nat → List (List Nat)
+  | 0 => [[]]
+  | n + 1 => (allPicks n).flatMap fun p => [0 :: p, 1 :: p]
+
+/-- The `select!` choices that can make a difference in the next poll: none unless both queues hold something
+and the substream can reach its back-pressure boundary during this poll. -/
+def pollChoices (c : Chan) : List (List Nat) :=
+  let qb := ((c.syncQ ++ c.asyncQ ++ (c.parked.map (·.2)).toList).map Msg.bytes).foldl (· + ·) 0
+  if c.alive && !c.syncQ.isEmpty && !c.asyncQ.isEmpty && c.sinkBytes + qb ≥ c.cfg.boundary then
+    allPicks (c.syncQ.length + c.asyncQ.length - 1)
+  else [[]]
+
+/-- The task holds a parked notification although the substream is below its boundary again (the flush that
+made room ran after the notification was parked): the next poll would hand it over, but the task is only polled
+when something wakes it, and whether a queue's waker is still registered depends on the order in which `select!`
+polled the queues. In this state (and only here a poll without a wake-up is not a no-op) the driver follows both. -/
+def stalled (c : Chan) : Bool := c.alive && !c.signalled && c.parked.isSome && c.sinkBytes < c.cfg.boundary
+
+/-- `run`: poll the task, then let waiting async sends proceed, until nothing moves; every choice of the task. -/
+def runLoop (c : Chan) (sent : List String) (ended : Option Bool) : Nat → List (Chan × List String × Option Bool)
+  | 0 => [(c, sent, ended)]
   | fuel + 1 =>
-    let before := (c.syncQ.length, c.asyncQ.length, c.waiting.length, c.inQ.length, c.alive)
-    let (c, e) := taskPoll c
-    let ended := if e.isSome then e else ended
-    let (c, sent) :=
-      if !c.alive then ({ c with waiting := [] }, sent ++ c.waiting.map fun m => s!"a{m.seq}:noconn")
-      else
-        let (c', done) := letIn c 4096
-        (c', sent ++ done.map fun m => s!"a{m.seq}:ok")
-    let after := (c.syncQ.length, c.asyncQ.length, c.waiting.length, c.inQ.length, c.alive)
-    if before == after then (c, sent, ended) else runLoop c sent ended fuel
+    let polls := dedup ((pollChoices c).map fun picks => taskPoll c picks)
+    let polls := if stalled c then (c, none) :: polls else polls
+    dedup <| polls.flatMap fun (c1, e) =>
+      let ended := if e.isSome then e else ended
+      let (c2, sent) :=
+        if !c1.alive then ({ c1 with waiting := [] }, sent ++ c1.waiting.map fun m => s!"a{m.seq}:noconn")
+        else
+          let (c', done) := letIn c1 4096
+          (c', sent ++ done.map fun m => s!"a{m.seq}:ok")
+      if c2 == c then [(c2, sent, ended)] else runLoop c2 sent ended fuel
 
 def parseLabel (s : String) : Option (Nat × Nat) :=
   match s.toList with
@@ -34,64 +57,112 @@ def parseLabel (s : String) : Option (Nat × Nat) :=
   | 'a' :: rest => (String.ofList rest).toNat?.map fun n => (1, n)
   | _ => none
 
+/-- Keep the candidates whose answer is the observed one; without an observation (or if none fits) answer
+with the first candidate's output and keep the candidates that give it. -/
+def settle (st : State) (obs : Option String) (rs : List (Chan × String)) : State × String :=
+  match rs with
+  | [] => (st, "bad-op")
+  | (_, o0) :: _ =>
+    let want := match obs with
+      | some o => if rs.any (·.2 == o) then o else o0
+      | none => o0
+    ({ st with cands := dedup ((rs.filter (·.2 == want)).map (·.1)) }, want)
+
+def stepRun (st : State) (obs : Option String) : State × String :=
+  settle st obs <| st.cands.flatMap fun c =>
+    (runLoop c [] none 4096).map fun (c, sent, ended) =>
+      (c, "ok" ++ (if sent.isEmpty then "" else s!" sent=[{joinWith " " sent}]") ++
+        (match ended with | some true => " ended notice" | some false => " ended" | none => ""))
+
+def stepRead (st : State) (arg : Option Nat) (obs : Option String) : State × String :=
+  match st.cands, obs with
+  | [], _ => (st, "bad-op")
+  | _, none => (st, "need-observation")
+  | c0 :: _, some o =>
+    let inner := (o.drop 1).dropEnd 1
+    let labels := (tokens inner.toString).map parseLabel
+    if !o.startsWith "[" || labels.any (·.isNone) then (st, "mismatch unparsable observation")
+    else
+      let nOf (c : Chan) : Nat := match arg with | some n => min n c.pipeFill | none => c.pipeFill
+      let ok := st.cands.filterMap fun c => remoteRead c (nOf c) (labels.filterMap id)
+      if ok.isEmpty then (st, s!"mismatch: {nOf c0} bytes cannot yield {o}")
+      else ({ st with cands := dedup ok }, o)
+
+/-- Nothing is on its way to the remote any more. -/
+def drained (c : Chan) : Bool :=
+  c.pipeFill == 0 &&
+    (!c.alive || (c.carry == 0 && c.sinkBytes == 0 && c.parked.isNone && c.syncQ.isEmpty && c.asyncQ.isEmpty && c.sBuf.isEmpty &&
+      c.aBuf.isEmpty && c.waiting.isEmpty))
+
+/-- `drain` = `run`, `rread` in turns; the observation lists the single outputs, then `quiet`. -/
+def stepDrain (st : State) (parts : List String) : State × List String :=
+  let rec go (st : State) (isRun : Bool) : List String → State × List String
+    | [] => (st, [])
+    | ["quiet"] =>
+      let ok := st.cands.filter drained
+      if ok.isEmpty then (st, ["not-quiet"]) else ({ st with cands := ok }, ["quiet"])
+    | p :: rest =>
+      let (st1, o) := if isRun then stepRun st (some p) else stepRead st none (some p)
+      let (st2, os) := go st1 (!isRun) rest
+      (st2, o :: os)
+  go st true parts
+
 def step (st : State) (line : String) : State × String :=
   let (opPart, obs) := match line.splitOn " -> " with
-    | [a, b] => (a, some b)
+    | [a, b] => (a, some b.trimAscii.toString)
     | _ => (line, none)
   let ts := tokens opPart
   match ts with
   | "cfg" :: rest =>
     let g (k : String) (d : Nat) : Nat := ((arg? k rest).bind (·.toNat?)).getD d
-    ({ chan := some { cfg := ⟨(g "sync" 4).max 1, (g "async" 2).max 1, (g "notif" 4).max 1, g "cap" 64, g "max" 256⟩ } }, "ok")
+    let cfg : Cfg := { syncCap := (g "sync" 4).max 1, asyncCap := (g "async" 2).max 1, notifCap := (g "notif" 4).max 1
+                       pipeCap := g "cap" 64, maxSize := g "max" 256 }
+    let c : Chan := { cfg := cfg }
+    ({ cands := [c] }, "ok")
   | _ =>
-  match st.chan with
-  | none => (st, "bad-op")
-  | some c =>
-    let ret (c : Chan) (o : String) : State × String := ({ st with chan := some c }, o)
+  match st.cands with
+  | [] => (st, "bad-op")
+  | c0 :: _ =>
+    let each (f : Chan → Chan × String) : State × String := settle st obs (st.cands.map f)
     match ts with
     | ["open"] =>
-      if c.alive then (st, "ignored") else ({ chan := some (reopen c), everOpened := true }, "ok")
+      if c0.alive then (st, "ignored") else ({ cands := dedup (st.cands.map reopen), everOpened := true }, "ok")
     | ["sync", seq, size] =>
       match seq.toNat?, size.toNat? with
       | some seq, some size =>
-        let (c, r, fc) := syncSend c ⟨0, seq, size⟩
-        ret c (resWord r ++ (if fc then " forceclose" else ""))
+        each fun c =>
+          let (c, r, fc) := syncSend c ⟨0, seq, size⟩
+          (c, resWord r ++ (if fc then " forceclose" else ""))
       | _, _ => (st, "bad-op")
     | ["async", seq, size] =>
       match seq.toNat?, size.toNat? with
       | some seq, some size =>
-        let (c, r) := asyncSend c ⟨1, seq, size⟩
-        ret c (resWord r)
+        each fun c =>
+          let (c, r) := asyncSend c ⟨1, seq, size⟩
+          (c, resWord r)
       | _, _ => (st, "bad-op")
-    | ["run"] =>
-      let (c, sent, ended) := runLoop c [] none 4096
-      let o := "ok" ++ (if sent.isEmpty then "" else s!" sent=[{joinWith " " sent}]") ++
-        (match ended with | some true => " ended notice" | some false => " ended" | none => "")
-      ret c o
+    | ["run"] => stepRun st obs
     | "rread" :: rest =>
+      if !st.everOpened then (st, "ignored") else stepRead st (rest.head?.bind (·.toNat?)) obs
+    | ["drain"] =>
       if !st.everOpened then (st, "ignored") else
-      let n := match rest.head?.bind (·.toNat?) with | some n => min n c.pipeFill | none => c.pipeFill
       match obs with
       | none => (st, "need-observation")
       | some o =>
-        let inner := (o.trimAscii.toString.drop 1).dropEnd 1
-        let labels := (tokens inner.toString).map parseLabel
-        if labels.any (·.isNone) then (st, "mismatch unparsable observation")
-        else
-          match remoteRead c n (labels.filterMap id) with
-          | some c' => ret c' o.trimAscii.toString
-          | none => (st, s!"mismatch: {n} bytes cannot yield {o}")
+        let (st, outs) := stepDrain st ((o.splitOn " | ").map fun p => p.trimAscii.toString)
+        (st, joinWith " | " outs)
     | ["rsend", seq, size] =>
       if !st.everOpened then (st, "ignored") else
       match seq.toNat?, size.toNat? with
-      | some seq, some size => ret { c with inQ := c.inQ ++ [⟨2, seq, size⟩] } "ok"
+      | some seq, some size => each fun c => ({ c with inQ := c.inQ ++ [⟨2, seq, size⟩] }, "ok")
       | _, _ => (st, "bad-op")
-    | ["rclose"] => if !st.everOpened then (st, "ignored") else ret { c with inClosed := true } "ok"
+    | ["rclose"] => if !st.everOpened then (st, "ignored") else each fun c => ({ c with inClosed := true }, "ok")
     | ["close"] =>
-      if !st.everOpened || c.signalled then (st, "ignored") else ret { c with signalled := true } "ok"
+      if !st.everOpened || c0.signalled then (st, "ignored") else each fun c => ({ c with signalled := true }, "ok")
     | ["events"] =>
-      let (c, evs) := pollHandle c
-      ret c s!"[{joinWith " " evs}]"
+      each fun c =>
+        let (c, evs) := pollHandle c
+        (c, s!"[{joinWith " " evs}]")
     | _ => (st, "bad-op")
 
 end Litep2pVerif.Driver.C12
